@@ -45,6 +45,13 @@ def run_one(choices, params):
     kw = {}
     if kind == "pool":
         kw = {"nbThreads": w.pick((1, 2, 4, 20)), "requestBatchSize": w.pick((1, 3, 10))}
+    # an authenticator hands back the socket to use from then on: the one it was given, or another object for the same connection
+    # (what a TLS wrapper does); the server then tracks one object and serves through another
+    auth = w.pick((None, None, None, "same", "dup")) if kind != "forking" else None
+    if auth == "same":
+        kw["authenticator"] = lambda sock: (sock, None)
+    elif auth == "dup":
+        kw["authenticator"] = lambda sock: (sock.dup(), None)
 
     def main(sim, k):
         class Svc(rpyc.Service):
@@ -150,6 +157,8 @@ def run_one(choices, params):
                     first = list(clients.values())[0]
                     if first["state"] in ("closed", "reset"):
                         settle(2.0)
+                        if auth == "dup":
+                            __import__("gc").collect()      # (see census: the accepted socket object is dropped, never closed)
                         if not box.get("ended") or SV.server_fds(k):
                             raise core.Violation("oneshot-count", "the one-shot server is still up after its only client left (accept loop ended: %s, "
                                                  "descriptors %r)" % (box.get("ended"), SV.server_fds(k)))
@@ -354,9 +363,19 @@ def run_one(choices, params):
 
     def census(sim, k, server, kind, clients, Svc, fm, when):
         connected = [i for i, cl in clients.items() if cl["state"] in ("connected", "busy")]
+        if auth == "dup":
+            # the server never closes the socket object it accepted once the authenticator has handed back another one: it drops it,
+            # and the object may sit in a reference cycle (exception <-> traceback <-> frame) until the collector runs.  The
+            # simulator runs without automatic collection, so collect here - "nothing left behind once garbage has been collected"
+            import gc
+            gc.collect()
         fds = SV.server_fds(k)
         listeners = [f for f in fds if f[1] == "listen"]
         streams = [f for f in fds if f[1] == "stream"]
+        if auth == "dup":
+            # two descriptors (accepted + duplicate) per connection while it lasts: count connections, not descriptor numbers
+            nfiles = len(set(id(so._d) for so in k.fds.values() if so.host == "srv" and so._d.kind == "stream"))
+            streams = streams[:nfiles]
         expect_streams = len(connected) if when == "before close" else 0
         if kind == "forking" and when == "before close":
             # departed clients leave no process-table entries either: every child that has exited was waited for
@@ -393,7 +412,7 @@ def run_one(choices, params):
         RS.os, RS.signal = old_os, old_sig
     if out["kind"] == "deadlock":
         out = {"kind": "violation", "cls": "deadlock", "detail": "%s" % (H.blocked_in(out["report"]),), "sig": kind, "report": out["report"]}
-    sample = {"server": kind, "options": kw, "unix_socket": unix, "clients": nclients, "connected_at_close": info["closed_with"]}
+    sample = {"server": kind, "options": dict((k_, v_) for k_, v_ in kw.items() if k_ != "authenticator"), "authenticator": auth, "unix_socket": unix, "clients": nclients, "connected_at_close": info["closed_with"]}
     return H.result_from(out, sim, states=sorted(info["states"]), nontrivial=info["closed_with"] > 0 or info["departed"] >= 2, sample=sample,
                          strategy=strat[0])
 
